@@ -385,6 +385,18 @@ func strip(v ssa.Value) ssa.Value {
 				return v
 			}
 			v = w
+		case *ssa.Parameter:
+			b, ok := boundParam(x)
+			if !ok {
+				return v
+			}
+			v = b
+		case *ssa.Call:
+			a, ok := accessorValue(x)
+			if !ok {
+				return v
+			}
+			v = a
 		default:
 			return v
 		}
@@ -425,6 +437,12 @@ func (c *exprCtx) render(v ssa.Value) string {
 		}
 		return x.Value.ExactString()
 	case *ssa.Parameter:
+		if b, ok := boundParam(x); ok && !c.seen[x] {
+			c.seen[x] = true
+			r := c.render(b)
+			delete(c.seen, x)
+			return r
+		}
 		for i, p := range x.Parent().Params {
 			if p == x {
 				return fmt.Sprintf("param%d<%s>", i, x.Name())
@@ -476,6 +494,12 @@ func (c *exprCtx) render(v ssa.Value) string {
 	case *ssa.BinOp:
 		return "(" + c.render(x.X) + " " + x.Op.String() + " " + c.render(x.Y) + ")"
 	case *ssa.Call:
+		if a, ok := accessorValue(x); ok && !c.seen[x] {
+			c.seen[x] = true
+			r := c.render(a)
+			delete(c.seen, x)
+			return r
+		}
 		return c.renderCall(&x.Call)
 	case *ssa.Extract:
 		return c.render(x.Tuple) + "#" + fmt.Sprint(x.Index)
@@ -666,6 +690,18 @@ func edgeDominates(d, s, b *ssa.BasicBlock) bool {
 // `a || b` / `a && b` gives the guarded block two predecessors; such a block is guarded by neither
 // disjunct (sound, and exactly what rule C12.1 needs).
 func guardsAt(b *ssa.BasicBlock) []Guard {
+	raw := guardsAtRaw(b)
+	out := append([]Guard{}, raw...)
+	for _, g := range raw {
+		out = append(out, boolOutcomeFacts(g.Cond, g.Truth, g.If.Block(), 0)...)
+		if x, op, y, ok := cmpGuard(g); ok && (op == token.EQL || op == token.NEQ) && isNilConst(y) {
+			out = append(out, nilOutcomeFacts(x, op == token.EQL)...)
+		}
+	}
+	return out
+}
+
+func guardsAtRaw(b *ssa.BasicBlock) []Guard {
 	var out []Guard
 	for d := b.Idom(); d != nil; d = d.Idom() {
 		n := len(d.Instrs)
